@@ -397,6 +397,7 @@ func sample(c Case) any {
 var fieldGen = rapid.OneOf(
 	rapid.StringMatching(`[A-Za-z0-9_.:|-]{1,12}`),
 	rapid.StringMatching(`[ -:<>-~]{1,16}`), // printable ASCII without ';' and '='
+	rapid.SampledFrom(vk.Placeholders),      // "unknown", ".", "NaN", "0" ...: text like any other
 )
 
 // seqids: the characters the GFF3 specification allows unescaped in column 1 ([a-zA-Z0-9.:^*$@!+_?-|]);
